@@ -140,7 +140,7 @@ fn replay_cmd(args: &[String]) -> i32 {
       let hs = j["hash_seed"].as_u64().unwrap_or(1);
       let props: Vec<String> = j["violation"]["properties"].as_array().map(|a| a.iter().filter_map(|x| x.as_str().map(|s| s.to_string())).collect()).unwrap_or(vec!["C04".into(), "C05".into()]);
       let supported = w1::load_supported(&format!("{}/baselines/w1_supported.txt", VERIF));
-      let r = w1::run::execute_explicit(ops, hs, props, supported);
+      let r = w1::run::execute_explicit(ops, hs, props, supported, &known_sigs());
       for l in &r.log { println!("{}", l); }
       match r.violation {
         Some(v) if want.is_empty() || v.signature == want => { println!("REPRODUCED {}", v.signature); 1 }
